@@ -308,8 +308,11 @@ def run_scenario(scen, chooser_factory, max_steps=4000, observe=True):
     H.seen_ids = set()
     H.api_tb = []
     H.cb_submitted = []
+    H.cb_resizes = []
+    H.last_reuse_kwargs = None
     simtasks.HOLDER = H
     H.pickler_at_submit = {}
+    H.cb_resize = lambda mw: RE.get_reusable_executor(max_workers=mw, **(H.last_reuse_kwargs or {}))
     H.api = []              # (user, op index, op, outcome)
     H.cancel_ok = {}
     tasks = scen.get("tasks", [])
@@ -337,6 +340,7 @@ def run_scenario(scen, chooser_factory, max_steps=4000, observe=True):
                 kw = kwargs()
                 if a.pop("newinit", False):
                     kw = {"initializer": simtasks.initializer, "initargs": ((), "tag1")}
+                want_cfg = {"timeout": a.get("timeout", 10), "init": (kw.get("initargs") or (None, None))[1]}
                 prev = RE._executor
                 before = None
                 if prev is not None:
@@ -346,9 +350,14 @@ def run_scenario(scen, chooser_factory, max_steps=4000, observe=True):
                                   context=None, timeout=a.get("timeout", 10), job_reducers=None, result_reducers=None,
                                   initializer=kw.get("initializer"), initargs=kw.get("initargs", ()), env=None),
                               "started": prev._executor_manager_thread is not None,
-                              "pending": len(prev._pending_work_items)}
+                              "pending": len(prev._pending_work_items),
+                              "stored": None if RE._executor_kwargs is None else
+                              {"timeout": RE._executor_kwargs.get("timeout"),
+                               "init": (RE._executor_kwargs.get("initargs") or (None, None))[1]
+                               if RE._executor_kwargs.get("initializer") is not None else None}}
                 del prev
                 t0 = len(E.ENG.trace)
+                H.last_reuse_kwargs = dict(timeout=a.get("timeout", 10), **kw)
                 ex = RE.get_reusable_executor(max_workers=a.get("max_workers"), timeout=a.get("timeout", 10),
                                               kill_workers=a.get("kill_workers", False),
                                               reuse=a.get("reuse", "auto"), **kw)
@@ -356,7 +365,15 @@ def run_scenario(scen, chooser_factory, max_steps=4000, observe=True):
                 after = {"id": ex.executor_id, "mw": ex._max_workers, "broken": ex._flags.broken is not None,
                          "shutdown": ex._flags.shutdown, "pids": sorted(ex._processes),
                          "alive": sorted(p.pid for p in ex._processes.values() if p.alive),
-                         "started": ex._executor_manager_thread is not None}
+                         "started": ex._executor_manager_thread is not None,
+                         # how the instance handed out is configured, and what the module remembers about it
+                         "cfg": {"timeout": ex._timeout, "init": (ex._initargs or (None, None))[1]
+                                 if ex._initializer is not None else None},
+                         "stored": None if RE._executor_kwargs is None else
+                         {"timeout": RE._executor_kwargs.get("timeout"),
+                          "init": (RE._executor_kwargs.get("initargs") or (None, None))[1]
+                          if RE._executor_kwargs.get("initializer") is not None else None},
+                         "want_cfg": want_cfg}
                 if ex.executor_id not in H.seen_ids:
                     # a fresh instance is handed out: every earlier instance must be completely shut down by now
                     mine = set(ex._processes)
@@ -384,6 +401,8 @@ def run_scenario(scen, chooser_factory, max_steps=4000, observe=True):
                     cb = spec.get("cb")
                     if cb == "submit":
                         f.add_done_callback(simtasks.CbSubmit(spec["cb_task"], tasks))
+                    elif cb == "resize":
+                        f.add_done_callback(simtasks.CbResize(spec["cb_mw"]))
                     elif cb:
                         f.add_done_callback(simtasks.cb_raise if cb == "raise" else simtasks.cb_ok)
                     H.futs[k] = f
@@ -501,6 +520,7 @@ def run_scenario(scen, chooser_factory, max_steps=4000, observe=True):
         "dropped": H.ex is None,
         "api_tb": H.api_tb,
         "reuse_calls": H.reuse_calls,
+        "cb_resizes": H.cb_resizes,
         "pickler_at_submit": {str(k): v for k, v in H.pickler_at_submit.items()},
         "pickler_in_worker": [list(x) for x in simtasks.PICKLER_LOG],
         "pickler_at_result": [list(x) for x in simtasks.PICKLER_RES_LOG],
